@@ -7,6 +7,7 @@ import (
 	"io/ioutil"
 	"os"
 	"path/filepath"
+	"runtime/debug"
 	"sort"
 	"strings"
 	"sync"
@@ -77,6 +78,9 @@ func runJobs(jobs []job, workers int, mkMon func(*Stats) *Mon) *Stats {
 						if r := recover(); r != nil {
 							mu.Lock()
 							fmt.Fprintf(os.Stderr, "HARNESS-PANIC in %s: %v\n", j.name, r)
+							if os.Getenv("CHAINMON_STACK") != "" {
+								fmt.Fprintf(os.Stderr, "%s\n", debug.Stack())
+							}
 							total.Hits["harness/panic"]++
 							mu.Unlock()
 							a = NewApp()
@@ -387,7 +391,7 @@ var assumptions = []string{
 	"signers (owners, consumers, authors, responding providers) are 20-byte addresses; providers named in bind/call messages have any length",
 	"the host application supplies tx_hash and msg_index context values",
 	"one token: prices and deposits are in the base denomination (the repository's only TokenKeeper)",
-	"parameters are constant within a history and varied across histories",
+	"parameters vary across histories and are changed by governance steps within a history, except the minimum-deposit terms and the base denomination, which stay fixed on a live chain",
 	"failed messages change nothing (baseapp's cache wrap, reproduced by the driver)",
 	"held on the executions produced; nothing is claimed about inputs or schedules outside the generators",
 }
